@@ -1,6 +1,8 @@
 SPECIFICATION MCSpec
 CONSTANTS WakeAll = FALSE
  NotifyOnFail = TRUE
+ NarrowLock = FALSE
+ MaxWriters = 1
  MaxReaders = 1
  MaxStores = 3
  MaxCancel = 0
